@@ -14,7 +14,7 @@ LEVEL = "proof"
 RULE = ("operation instances of every family (elementwise fused/unfused, widening reductions, structured arg-reductions, mean, "
         "cumulative ops, matmul/outer/tensordot, rechunk, concat/stack/unstack/repeat/flip/roll/permute/reshape/broadcast/index/pad, "
         "map_blocks) on chunks of >= 200 kB (square, skinny, uneven last chunk), dtypes float64/float32/int64/int32, compressor none / "
-        "default, optimised and unoptimised; every task runs in-process under tracemalloc (NumPy buffers are traced): peak - baseline "
+        "default, optimised and unoptimised, plus a list of corner instances (thin chunks under widening / structured reductions, deep fused folds, many-block lists, output-dominated products) drawn 40% of the time; every task runs in-process under tracemalloc (NumPy buffers are traced): peak - baseline "
         "<= projected_mem of its op, with reserved_mem = 1 MB so that the 40-125 kB of non-data noise per task can never alarm. "
         "K: projected_mem of elementwise ops of the real plans vs Model.Memory.calc_projected; modelled task peak (Model.AllocTrace) "
         "vs the formula on the same integers. non-trivial = op instance with >=2 tasks; distinct = op x geometry x dtype x options")
@@ -78,8 +78,8 @@ def op_instances():
         "nansum": lambda xp, c, a, b: c.nansum(xp.astype(a, xp.float64), axis=1),
         # a deep right-nested fold that the optimizer fuses into one op: every already evaluated predecessor's output
         # is still held while the next one runs
-        "right-nested-fold": lambda xp, c, a, b: _right_fold(xp, [xp.negative(a), xp.negative(b)] * 4),
-        "left-fold": lambda xp, c, a, b: _left_fold(xp, [xp.negative(a), xp.negative(b)] * 3),
+        "right-nested-fold": lambda xp, c, a, b: _right_fold(xp, [xp.negative(xp.multiply(t, float(i + 2))) for i, t in enumerate([a, b] * 4)]),
+        "left-fold": lambda xp, c, a, b: _left_fold(xp, [xp.negative(xp.multiply(t, float(i + 2))) for i, t in enumerate([a, b] * 3)]),
         # widening reductions without a prior cast: the intermediate of mean is a 16-byte {n, total} record per element
         "mean-direct-axis0": lambda xp, c, a, b: xp.mean(a, axis=0),
         "mean-direct-axis1": lambda xp, c, a, b: xp.mean(a, axis=1),
@@ -158,16 +158,36 @@ def run_instance(desc):
     return plan, meter.peaks
 
 
+# corners where a projection is most likely to be too small: widening / structured reductions over chunks that are thin along the
+# reduced axis, deep folds that the optimizer fuses into one task, many-block list arguments, output-dominated products
+CORNERS = [
+    ("mean-direct-axis0", (8, 400000), (1, 400000), "float32"), ("mean-direct-axis1", (400000, 8), (400000, 1), "float32"),
+    ("var-direct", (8, 300000), (1, 300000), "float64"), ("var-direct", (8, 300000), (1, 300000), "float32"),
+    ("sum-direct-axis0", (8, 400000), (1, 400000), "uint8"), ("prod-direct-axis0", (6, 400000), (1, 400000), "int8"),
+    ("argmax", (8, 300000), (1, 300000), "float32"), ("max", (8, 300000), (1, 300000), "float64"),
+    ("right-nested-fold", (720, 360), (360, 360), "float64"), ("right-nested-fold", (500, 500), (500, 250), "float32"),
+    ("left-fold", (720, 360), (360, 360), "float64"), ("fused-chain", (720, 360), (360, 360), "float64"),
+    ("unstack-many", (400, 400), (200, 400), "float64"), ("matmul", (3000, 16), (1500, 8), "float64"), ("matmul", (4000, 16), (2000, 8), "uint8"),
+    ("cumulative_sum", (8, 300000), (1, 300000), "float64"), ("nansum", (300000, 8), (300000, 1), "float64"),
+]
+
+
 def work(part, n):
     names = list(op_instances())
     tracemalloc.start()
     try:
-        for _ in range(n):
-            name = part.rng.choice(names)
-            gk, shape, chunks = geometries(part.rng)
-            dtype = part.rng.choice(["float64", "float64", "float32", "int64", "int32", "uint8", "int8"])
-            comp = part.rng.choice(["auto", None])
-            og = part.rng.random() < 0.5
+        for it in range(n):
+            if part.rng.random() < 0.4:
+                name, shape, chunks, dtype = part.rng.choice(CORNERS)
+                gk = "corner"
+                comp = None if part.rng.random() < 0.7 else "auto"
+                og = part.rng.random() < 0.7
+            else:
+                name = part.rng.choice(names)
+                gk, shape, chunks = geometries(part.rng)
+                dtype = part.rng.choice(["float64", "float64", "float32", "int64", "int32", "uint8", "int8"])
+                comp = part.rng.choice(["auto", None])
+                og = part.rng.random() < 0.5
             desc = {"op": name, "geometry": gk, "shape": shape, "chunks": chunks, "dtype": dtype, "compressor": comp, "optimize_graph": og,
                     "data_seed": part.rng.randrange(10**6)}
             r = run_instance(desc)
@@ -207,6 +227,18 @@ def work(part, n):
                         ok_without = bool(names2) and all(uncompressed.get(n_, (0, None))[0] <= plan2.dag.nodes[n_]["primitive_op"].projected_mem for n_ in names2)
                         if ok_without and delta - pop.projected_mem <= out_mem * 1.05 + 65536:
                             key = "compressed-output-copy-not-projected"
+                    nsrc = len(pop.source_array_names)
+                    if key != "compressed-output-copy-not-projected" and og and nsrc >= 3:
+                        # finding D25: a fused op with several predecessors also holds the intermediate results of the nested
+                        # function (add(t0, add(t1, ...))) which peak_projected_mem does not count - at most one chunk beyond the
+                        # projection in every case seen; the same instance unfused stays within its projections
+                        in_mem = max([int(chunk_memory(plan.dag.nodes[s_]["target"])) for s_ in pop.source_array_names
+                                      if s_ in plan.dag.nodes and plan.dag.nodes[s_].get("target") is not None] + [out_mem])
+                        if delta - pop.projected_mem <= in_mem * 1.05 + 65536:
+                            r3 = run_instance({**desc, "optimize_graph": False, "compressor": None})
+                            if r3 is not None and all(v_[0] <= r3[0].dag.nodes[n_]["primitive_op"].projected_mem
+                                                      for n_, v_ in r3[1].items() if n_ != "create-arrays"):
+                                key = "fused-op-holds-nested-intermediate-one-chunk"
                     part.fail(key,
                               f"{name}: a task of {opname} ({fn}) allocated {delta} bytes of array data beyond its baseline, projected_mem is {pop.projected_mem} "
                               f"(chunk {chunks} {dtype}, compressor {comp}, optimize_graph={og}, output chunk {out_mem} bytes)",
@@ -227,10 +259,59 @@ def work(part, n):
         tracemalloc.stop()
 
 
+def fold_correspondence(ctx):
+    """K: fused folds of negative(multiply(a, k)) terms over stored blocks: peak data allocation of the single fused task, in
+    units of one chunk, vs Model.AllocTrace.tree_task_peak (eager reading of all inputs + nested evaluation), and cubed's
+    projected_mem of the fused op vs Model.AllocTrace.tree_projected"""
+    import cubed
+    import cubed.array_api as xp
+    import zarr
+
+    cases = []
+    tracemalloc.start()
+    try:
+        for _ in range(ctx.n(8, 60)):
+            nterms = ctx.rng.choice([2, 3, 4, 4])
+            right = ctx.rng.random() < 0.5
+            side = ctx.rng.choice([600, 720, 800])
+            X = side * side * 8
+            spec = cubed.Spec(allowed_mem="4GB", reserved_mem=0, zarr_compressor=None, intermediate_store=zarr.storage.MemoryStore())
+            an = np.random.RandomState(ctx.rng.randrange(10**6)).rand(2 * side, side)
+            with warnings.catch_warnings():
+                warnings.simplefilter("ignore")
+                a = cubed.from_array(an, chunks=(side, side), spec=spec)
+                terms = [xp.negative(xp.multiply(a, float(i + 2))) for i in range(nterms)]
+                y = _right_fold(xp, terms) if right else _left_fold(xp, terms)
+                plan = y.plan(optimize_graph=True)
+                adds = [n for n, d in plan.dag.nodes(data=True) if d.get("func_name") == "add"]
+                if len(adds) != 1 or len(plan.dag.nodes[adds[0]]["primitive_op"].source_array_names) != 2 * nterms:
+                    ctx.count("fold-not-fused-into-one-op")
+                    continue
+                meter = Meter()
+                y.compute(executor=AdvExecutor(on_task=meter), optimize_graph=True)
+            ctx.evaluations += 1
+            measured = meter.peaks[adds[0]][0]
+            projected = int(plan.dag.nodes[adds[0]]["primitive_op"].projected_mem)
+            units = measured / X
+            desc = {"fold": "right" if right else "left", "terms": nterms, "chunk_bytes": X, "measured": measured, "measured_chunks": round(units, 3), "projected": projected}
+            if abs(units - round(units)) > 0.2:
+                ctx.count("fold-measurement-not-a-chunk-multiple")
+                continue
+            ctx.count(f"fold:{desc['fold']}-{nterms}")
+            ctx.nt({"fold": desc["fold"], "terms": nterms})
+            tree = f"({'right_fold' if right else 'left_fold'} 1 {nterms - 1})"
+            cases.append({"expr": f"Z.eqb (tree_task_peak 1 1 {tree}) {int(round(units))} && Z.eqb ({cZ(X)} * tree_projected 1 1 {tree}) {cZ(projected)}",
+                          "desc": desc, "show": f"(tree_task_peak 1 1 {tree}, tree_projected 1 1 {tree})"})
+    finally:
+        tracemalloc.stop()
+    ctx.corr("fused_fold_peak_and_projection", "Model.Util Model.Memory Model.AllocTrace", cases, defs="Local Open Scope Z_scope.", chunk=100)
+
+
 def run(ctx):
     warnings.filterwarnings("ignore")
-    cases = pmap(ctx, work, [6] * (ctx.n(72, 1500) // 6), procs=6)
+    cases = pmap(ctx, work, [6] * (ctx.n(96, 1500) // 6), procs=8)
     ctx.corr("elementwise_formula_and_model_peak", "Model.Util Model.Memory Model.AllocTrace", cases.get("formula", []), defs="Local Open Scope Z_scope.", chunk=200)
+    fold_correspondence(ctx)
 
 
 def search(ctx):
